@@ -370,12 +370,22 @@ func VerifH_C18_Separators() {
 			ip, fp = want[:k], want[k+1:]
 		}
 	}
+	// regular grouping (positions G, 2G, ..., nG) repeats at every multiple of G
+	regular := true
+	for k, p := range positions {
+		if p != (k+1)*positions[0] {
+			regular = false
+		}
+	}
 	exp := ""
 	for k := 0; k < len(ip); k++ {
 		fromRight := len(ip) - k
 		if k > 0 {
+			if regular && fromRight%positions[0] == 0 {
+				exp += ","
+			}
 			for _, p := range positions {
-				if p == fromRight {
+				if !regular && p == fromRight {
 					exp += ","
 				}
 			}
